@@ -30,9 +30,12 @@ CONSTANTS AsCode      \* TRUE: transcribe the printer as the code has it (2D off
 Layouts == {"header", "trailer", "interleaved"}
 (* sci: the rows write their lengths the way the repository's own files do, as "<km>e3" instead of plain metres; the tool
    echoes a row's fields as they were written *)
-Configs == {c \in [dim : {2, 3}, nc : 0..3, ngc : 0..2, ng : 0..3, conv : BOOLEAN, comma : BOOLEAN, wsph : BOOLEAN, layout : Layouts, sci : BOOLEAN] :
+(* remark: every option line carries a remark after its value ("# compositions = 3 # crust, mantle, sediments"), as some of
+   the repository's own data files do; the option still counts *)
+Configs == {c \in [dim : {2, 3}, nc : 0..3, ngc : 0..2, ng : 0..3, conv : BOOLEAN, comma : BOOLEAN, wsph : BOOLEAN, layout : Layouts, sci : BOOLEAN, remark : BOOLEAN] :
                /\ (c.conv => c.dim = 3) /\ (c.ngc = 0 => c.ng = 0) /\ (c.wsph => c.conv) /\ (c.layout # "header" => ~c.comma)
-               /\ (c.sci => (~c.conv /\ ~c.comma /\ c.layout = "header"))}
+               /\ (c.sci => (~c.conv /\ ~c.comma /\ c.layout = "header"))
+               /\ (c.remark => (~c.comma /\ ~c.sci /\ c.layout = "header"))}
 
 Request(c) == <<PT, PV>> \o [i \in 1..c.nc |-> PC(i - 1)] \o [g \in 1..c.ngc |-> PG(g - 1, c.ng)] \o <<PTag>>
 
@@ -97,9 +100,10 @@ RowQuery(c, i) ==
    ELSE [p |-> <<pr[1] * Km, pr[2] * Km, H - pr[3] * Km>>, dim |-> 3])
   @@ [op |-> "q", h |-> 1, depth |-> pr[3] * Km, props |-> Request(c), save |-> "row" \o S(i)]
 
-OptionLines(c) == << "# dim = " \o S(c.dim), "# compositions = " \o S(c.nc) >>
-                  \o (IF c.ngc > 0 THEN <<"# grain compositions = " \o S(c.ngc), "# number of grains = " \o S(c.ng)>> ELSE <<>>)
-                  \o (IF c.conv THEN <<"# convert spherical = true">> ELSE <<>>)
+Rk(c) == IF c.remark THEN " # a remark, with = signs and numbers 7 9" ELSE ""
+OptionLines(c) == << "# dim = " \o S(c.dim) \o Rk(c), "# compositions = " \o S(c.nc) \o Rk(c) >>
+                  \o (IF c.ngc > 0 THEN <<"# grain compositions = " \o S(c.ngc) \o Rk(c), "# number of grains = " \o S(c.ng) \o Rk(c)>> ELSE <<>>)
+                  \o (IF c.conv THEN <<"# convert spherical = true" \o Rk(c)>> ELSE <<>>)
                   \o <<"# a comment line that has to be ignored">>
 
 (* the file, line by line: [opt |-> text] or [row |-> fields] *)
